@@ -753,8 +753,33 @@ func walkLess(a, b string) bool {
 	return len(as) < len(bs)
 }
 
-func roundTrip(dir string, id int, rng *rand.Rand, log logger.Logger) (e ev) {
-	e = ev{"op": "RT", "pan": 0, "hang": 0}
+// treeCase is one case printed by MC_GeometryTree: a tree (paths as component ids, in REVERSE walk order), the creation
+// argument kind and the walk order as computed by TLC (1-based positions into Tree).
+type treeCase struct {
+	Tree  [][]int `json:"tree"`
+	Kind  string  `json:"kind"`
+	Order []int   `json:"order"`
+}
+
+// nameTable maps component id k (1-based) to a name; it is sorted in byte order (checked at start-up), so < on ids is
+// the order in which filepath.Walk visits the entries of one directory.
+var nameTable = []string{"0", "B", "Sub", "a", "a-b", "a.d", "b", "c.txt", "deep", "sub", "z.d"}
+
+func relOf(path []int) string {
+	parts := make([]string, len(path))
+	for i, c := range path {
+		if c < 1 || c > len(nameTable) {
+			fatal("tree case: component id out of range: ", c)
+		}
+		parts[i] = nameTable[c-1]
+	}
+	return strings.Join(parts, "/")
+}
+
+// roundTrip: tc == nil -> a seeded random tree (argument: the directory, or the file itself for half of the one-file trees);
+// tc != nil -> the tree and the creation argument kind of a TLC-generated case (sizes and contents seeded).
+func roundTrip(dir string, id int, rng *rand.Rand, log logger.Logger, tc *treeCase) (e ev) {
+	e = ev{"op": "RT", "pan": 0, "hang": 0, "verr": 0}
 	current.Store(fmt.Sprintf(`{"op":"RT","id":%d,"pan":0,"hang":1}`, id))
 	stage := 1
 	defer func() {
@@ -765,29 +790,7 @@ func roundTrip(dir string, id int, rng *rand.Rand, log logger.Logger) (e ev) {
 	}()
 	units := []int64{1, 1000, 4096, 5461, 8192, 16384}
 	unit := units[rng.Intn(len(units))]
-	nf := 1 + rng.Intn(5)
-	single := nf == 1 && rng.Intn(2) == 0
-	names := []string{"a", "b", "c.txt", "B", "z", "0", "a.d", "a-b", "_x"}
-	dirs := []string{"", "", "sub/", "sub/deep/", "a/", "z.d/", "Sub/"}
-	var files []treeFile
-	seen := map[string]bool{}
-	root := filepath.Join(dir, fmt.Sprintf("tree%d", id))
-	for len(files) < nf {
-		rel := dirs[rng.Intn(len(dirs))] + names[rng.Intn(len(names))]
-		if single {
-			rel = names[rng.Intn(len(names))]
-		}
-		// a name may not be both a file and a directory
-		bad := seen[rel]
-		for o := range seen {
-			if strings.HasPrefix(o, rel+"/") || strings.HasPrefix(rel, o+"/") {
-				bad = true
-			}
-		}
-		if bad {
-			continue
-		}
-		seen[rel] = true
+	randSize := func() int64 {
 		size := int64(rng.Intn(7)) * unit
 		if rng.Intn(4) == 0 {
 			size += int64(rng.Intn(3)) - 1
@@ -795,9 +798,65 @@ func roundTrip(dir string, id int, rng *rand.Rand, log logger.Logger) (e ev) {
 		if size < 0 {
 			size = 0
 		}
-		files = append(files, treeFile{rel, size})
+		return size
 	}
-	sort.Slice(files, func(i, j int) bool { return walkLess(files[i].rel, files[j].rel) })
+	var files []treeFile
+	root := filepath.Join(dir, fmt.Sprintf("tree%d", id))
+	kind := "dir"
+	if tc != nil {
+		kind = tc.Kind
+		if len(tc.Order) != len(tc.Tree) {
+			fatal("tree case: order and tree differ in length")
+		}
+		tlen := make([]int, len(tc.Tree))
+		for j := range tc.Tree {
+			tlen[j] = int(randSize())
+		}
+		// the expected file order is TLC's (WalkOrder), not computed here
+		for _, o := range tc.Order {
+			files = append(files, treeFile{relOf(tc.Tree[o-1]), int64(tlen[o-1])})
+		}
+		tot := 0
+		for _, v := range tlen {
+			tot += v
+		}
+		if tot == 0 {
+			o := tc.Order[len(tc.Order)-1]
+			tlen[o-1] = int(unit + 1)
+			files[len(files)-1].size = unit + 1
+		}
+		e["tree"] = tc.Tree
+		e["tlen"] = tlen
+	} else {
+		nf := 1 + rng.Intn(5)
+		if nf == 1 && rng.Intn(2) == 0 {
+			kind = "file"
+		}
+		names := []string{"a", "b", "c.txt", "B", "z", "0", "a.d", "a-b", "_x"}
+		dirs := []string{"", "", "sub/", "sub/deep/", "a/", "z.d/", "Sub/"}
+		seen := map[string]bool{}
+		for len(files) < nf {
+			rel := dirs[rng.Intn(len(dirs))] + names[rng.Intn(len(names))]
+			if kind == "file" {
+				rel = names[rng.Intn(len(names))]
+			}
+			// a name may not be both a file and a directory
+			bad := seen[rel]
+			for o := range seen {
+				if strings.HasPrefix(o, rel+"/") || strings.HasPrefix(rel, o+"/") {
+					bad = true
+				}
+			}
+			if bad {
+				continue
+			}
+			seen[rel] = true
+			files = append(files, treeFile{rel, randSize()})
+		}
+		sort.Slice(files, func(i, j int) bool { return walkLess(files[i].rel, files[j].rel) })
+	}
+	single := kind == "file"
+	e["kind"] = kind
 	var total int64
 	for _, f := range files {
 		total += f.size
@@ -842,17 +901,43 @@ func roundTrip(dir string, id int, rng *rand.Rand, log logger.Logger) (e ev) {
 	for i, f := range files {
 		fl[i] = []int{int(f.size), 0}
 	}
+	if tc != nil { // tree order (the order TLC handed the tree over in); Trace_Geometry sorts
+		for j, v := range e["tlen"].([]int) {
+			fl[j] = []int{v, 0}
+		}
+	}
 	e["files"] = fl
 	e["pl"] = int(pl)
 	e["unit"] = 1
 	e["single"] = b2i(single)
 
 	stage = 2
-	target := root
-	if single {
-		target = filepath.Join(root, files[0].rel)
+	var ib []byte
+	var err error
+	switch kind {
+	case "file": // the regular file itself
+		ib, err = metainfo.NewInfoBytes("", []string{filepath.Join(root, files[0].rel)}, false, pl, "", log)
+	case "dir": // the directory
+		ib, err = metainfo.NewInfoBytes("", []string{root}, false, pl, "", log)
+	case "paths": // the directory as root, its top-level entries one by one (directory order), named after the directory
+		var tops []string
+		for _, f := range files { // files are in walk order, so first components come out in directory order
+			t := strings.SplitN(f.rel, "/", 2)[0]
+			if len(tops) == 0 || tops[len(tops)-1] != t {
+				tops = append(tops, t)
+			}
+		}
+		if len(tops) < 2 {
+			fatal("tree case: kind paths needs two top-level entries")
+		}
+		paths := make([]string, len(tops))
+		for i, t := range tops {
+			paths[i] = filepath.Join(root, t)
+		}
+		ib, err = metainfo.NewInfoBytes(root, paths, false, pl, filepath.Base(root), log)
+	default:
+		fatal("tree case: unknown kind ", kind)
 	}
-	ib, err := metainfo.NewInfoBytes("", []string{target}, false, pl, "", log)
 	if err != nil {
 		panic("NewInfoBytes: " + err.Error())
 	}
@@ -871,14 +956,15 @@ func roundTrip(dir string, id int, rng *rand.Rand, log logger.Logger) (e ev) {
 	}
 	e["ilen"] = il
 
-	verify := func(dest string) (bits []int, pieces []piece.Piece, al *allocator.Allocator) {
+	// an error of the storage / the allocator (the torrent's files cannot be opened below dest) is an observation, not a crash
+	verify := func(dest string) (bits []int, pieces []piece.Piece, al *allocator.Allocator, verr error) {
 		sto, err := filestorage.New(dest, 0o755)
 		if err != nil {
-			panic(err)
+			return nil, nil, nil, err
 		}
 		al, err = runAllocator(info, sto)
 		if err != nil {
-			panic("allocator: " + err.Error())
+			return nil, nil, nil, err
 		}
 		pieces = piece.NewPieces(info, al.Files)
 		v := verifier.New()
@@ -913,7 +999,14 @@ func roundTrip(dir string, id int, rng *rand.Rand, log logger.Logger) (e ev) {
 	if single {
 		src = root
 	}
-	bits, srcPieces, srcAl := verify(src)
+	bits, srcPieces, srcAl, verr := verify(src)
+	if verr != nil {
+		// the directory the torrent was created from cannot be opened as the torrent's storage
+		e["verr"] = stage
+		e["vmsg"] = verr.Error()
+		os.RemoveAll(root)
+		return e
+	}
 	e["bits"] = bits
 	e["existing"] = b2i(srcAl.HasExisting && !srcAl.HasMissing)
 	progress.Add(1)
@@ -927,7 +1020,12 @@ func roundTrip(dir string, id int, rng *rand.Rand, log logger.Logger) (e ev) {
 	}
 	dal, err := runAllocator(info, dsto)
 	if err != nil {
-		panic("allocator(dest): " + err.Error())
+		closeAll(srcAl)
+		e["verr"] = stage
+		e["vmsg"] = err.Error()
+		os.RemoveAll(root)
+		os.RemoveAll(dest)
+		return e
 	}
 	dpieces := piece.NewPieces(info, dal.Files)
 	order := rng.Perm(len(dpieces))
@@ -942,12 +1040,24 @@ func roundTrip(dir string, id int, rng *rand.Rand, log logger.Logger) (e ev) {
 	}
 	closeAll(dal)
 	closeAll(srcAl)
-	cbits, _, cal := verify(dest)
+	cbits, _, cal, verr := verify(dest)
+	if verr != nil {
+		e["verr"] = stage
+		e["vmsg"] = verr.Error()
+		os.RemoveAll(root)
+		os.RemoveAll(dest)
+		return e
+	}
 	closeAll(cal)
 	e["cbits"] = cbits
+	// the copy is the tree: every file of the tree is found at the same place relative to the storage root, same content
 	same := 1
-	for i, f := range files {
-		got, err := os.ReadFile(filepath.Join(dest, info.Files[i].Path))
+	for _, f := range files {
+		loc := filepath.Join(dest, filepath.Base(root), filepath.FromSlash(f.rel))
+		if single {
+			loc = filepath.Join(dest, filepath.FromSlash(f.rel))
+		}
+		got, err := os.ReadFile(loc)
 		if err != nil || !bytes.Equal(got, content[f.rel]) {
 			same = 0
 		}
@@ -1002,6 +1112,7 @@ func main() {
 	bssS := flag.String("bss", "2,3", "block sizes (byte mode)")
 	dir := flag.String("dir", "", "scratch directory (rt mode)")
 	n := flag.Int("n", 20, "number of trees (rt mode)")
+	treesF := flag.String("trees", "", "rt mode: ndjson file of TLC-generated tree cases {tree,kind,order}, run before the -n seeded trees")
 	layoutsF := flag.String("layouts", "", "ndjson file of {files,pl,unit,sf,mode}: process exactly these layouts (replay)")
 	flag.Parse()
 
@@ -1125,8 +1236,30 @@ func main() {
 			fatal("-dir required")
 		}
 		log := logger.New("c02")
+		if !sort.StringsAreSorted(nameTable) {
+			fatal("nameTable is not in byte order")
+		}
+		if *treesF != "" { // TLC-generated tree cases (MC_GeometryTree), one JSON object per line
+			data, err := os.ReadFile(*treesF)
+			if err != nil {
+				fatal(err)
+			}
+			k := 0
+			for _, line := range strings.Split(string(data), "\n") {
+				if strings.TrimSpace(line) == "" {
+					continue
+				}
+				var tc treeCase
+				if err := json.Unmarshal([]byte(line), &tc); err != nil {
+					fatal(err)
+				}
+				c.emit(roundTrip(*dir, 100000+k, rng, log, &tc))
+				progress.Add(1)
+				k++
+			}
+		}
 		for i := 0; i < *n; i++ {
-			c.emit(roundTrip(*dir, i, rng, log))
+			c.emit(roundTrip(*dir, i, rng, log, nil))
 			progress.Add(1)
 		}
 	default:
